@@ -49,6 +49,9 @@ type PrintOpts struct {
 	NoInit bool
 	// ExtraInit is appended inside the initializer.
 	ExtraInit string
+	// Layout: 0 one rule per paragraph; 1 all rules on one source line, separated by " ; ";
+	// 2 two rules per line.
+	Layout int
 }
 
 // PrintCanonical spells the grammar in one fixed way (one rule per line, `=`,
@@ -68,14 +71,19 @@ func Print(g *Grammar, o PrintOpts) string {
 		}
 		b.WriteString("}\n\n")
 	}
-	for _, r := range g.Rules {
+	for i, r := range g.Rules {
 		b.WriteString(r.Name)
 		if r.Display != "" {
 			b.WriteString(" " + strconv.Quote(r.Display))
 		}
 		b.WriteString(" = ")
 		printExpr(&b, g, r.Expr, lvRecover, o)
-		b.WriteString("\n\n")
+		switch {
+		case o.Layout == 1 && i < len(g.Rules)-1, o.Layout == 2 && i%2 == 0 && i < len(g.Rules)-1:
+			b.WriteString(" ; ")
+		default:
+			b.WriteString("\n\n")
+		}
 	}
 	return b.String()
 }
